@@ -424,3 +424,25 @@ _BaseP = P
 class P(_pl.PipelineMixin, _BaseP):
     pipeline_share = 0.1
     pipeline_oracles = ("c06",)
+
+
+# ---- command-line cases (the property's third observation point, "written proteinGroups.txt"): the real
+# `picked_group_fdr.main(argv)` in-process against the composed Lean model PgFdr.Cli.cliOutcome (harness/cli_model.py).
+# Oracle = the C06 statement only, on the rows READ BACK FROM THE WRITTEN TABLE of every method: consistent with the
+# groups / evidence of the last ranking at the peptide-level cutoff, and that cutoff recomputed independently
+# (pipeline.expected_pep_cutoff) for the PSM level GIVEN ON THE COMMAND LINE (--psm_fdr_cutoff), with the command line's
+# --keep_all_proteins; --psm_fdr_cutoff, --protein_group_fdr_threshold and --keep_all_proteins vary independently
+import cli_model as _cm  # noqa: E402
+
+_PipeP = P
+
+
+class P(_cm.CliMixin, _PipeP):
+    cli_model_share = 0.015   # ~45 of the 3 000 quick cases
+    cli_oracles = ("c06",)
+    rule = _PipeP.rule + (
+        "; 1.5 % of the cases run the whole command line in process (harness/cli_model.py: 1-3 shipped MaxQuant / Percolator "
+        "methods, generated FASTA and evidence files under random names in random order, --psm_fdr_cutoff from "
+        "{0.01, 0.05, 0.0011, 0.2}, --protein_group_fdr_threshold from pipeline.THRESHOLDS and --keep_all_proteins drawn "
+        "independently) and state C06 on the written table"
+    )
